@@ -294,14 +294,26 @@ func argsFor(r *hx.Rng, name string) int {
 }
 
 func searchCases(seed uint64, round, n, total int) []tcase {
-	r := hx.NewRng(seed*1000003 + uint64(round))
-	var cs []tcase
 	names := make([]string, 0, len(targets))
 	for _, t := range targets {
 		if !t.modelled {
 			names = append(names, t.name)
 		}
 	}
+	return casesFor(names, seed, round, n/40)
+}
+
+// stage-2 targets that have a Gallina model (C16ParseModel.v ...): `corr` feeds them the SAME hostile
+// generators as the search and compares outcome class and projected values with the extracted model
+var stage2Modelled = []string{"avc.ParseSPSNALUnit", "avc.ParsePPSNALUnit", "avc.ParseSliceHeader", "avc.ParsePSAndSlice"}
+
+func stage2CorrCases(seed uint64, round, n, total int) []tcase {
+	return casesFor(stage2Modelled, seed, round, n/20)
+}
+
+func casesFor(names []string, seed uint64, round, per int) []tcase {
+	r := hx.NewRng(seed*1000003 + uint64(round))
+	var cs []tcase
 	// 1. seeds unchanged, truncated at every byte (quick: every prefix of the seeds)
 	for _, name := range names {
 		if round != 0 {
@@ -319,7 +331,6 @@ func searchCases(seed uint64, round, n, total int) []tcase {
 		}
 	}
 	// 2. mutants and soups, n rounds over all targets
-	per := n / 40
 	if per < 8 {
 		per = 8
 	}
